@@ -286,8 +286,7 @@ pub unsafe extern "C" fn madvise(addr: *mut c_void, len: size_t, advice: c_int) 
 pub unsafe extern "C" fn close(fd: c_int) -> c_int {
     CALLS.fetch_add(1, Ordering::Relaxed);
     let ring = is_ring_fd(fd);
-    let issued =
-        fd >= ISSUED_MIN.load(Ordering::Relaxed) && fd < ISSUED_MAX.load(Ordering::Relaxed);
+    let issued = (fd >= ISSUED_MIN.load(Ordering::Relaxed) && fd < ISSUED_MAX.load(Ordering::Relaxed)) || WATCHED_FD.load(Ordering::Relaxed) == fd;
     let res = unsafe { libc::syscall(libc::SYS_close, fd) as c_int };
     if ring {
         unregister_ring_fd(fd);
@@ -296,6 +295,13 @@ pub unsafe extern "C" fn close(fd: c_int) -> c_int {
         crate::talloc::untracked(|| state().events.push(MapEvent::CloseIssued { fd, res }));
     }
     res
+}
+
+/// One further descriptor (outside the issued range) whose close(2) is logged: a duplicate made by `try_clone`.
+static WATCHED_FD: AtomicI32 = AtomicI32::new(-1);
+
+pub fn watch_fd(fd: i32) {
+    WATCHED_FD.store(fd, Ordering::Relaxed);
 }
 
 /// Close bypassing the interposer's log (used by the simulated kernel).
